@@ -4,7 +4,7 @@
     answers) and every body decoder verdict [dec]. *)
 From Coq Require Import NArith List Bool.
 From P9V Require Import gen.ConstGen Frame.Model Frame.ListN Frame.FrameProofs Frame.Instantiate.
-Require P9V.Codec.GenCheck P9V.gen.CodecGen P9V.Codec.Spec9P.
+Require P9V.Codec.GenCheck P9V.gen.CodecGen P9V.Codec.Spec9P P9V.Codec.Reuse.
 Import ListNotations.
 Open Scope N_scope.
 
@@ -167,22 +167,22 @@ Print Assumptions C02_registry.
 (** ... and that protocol table IS what go2coq reads from messages.go (CodecGen: the encode/decode
     programs of all registered types), for every type number; this puts the link from the decoder used
     above and in the differential's property predicate to the source into C02's own cone *)
-Theorem C02_spec_is_source : forall t, t < 256 ->
-  match P9V.Codec.GenCheck.gen_find t P9V.gen.CodecGen.gen_msgs with
-  | None => P9V.Codec.Spec9P.spec_find t P9V.Codec.Spec9P.spec = None
-  | Some g =>
-      exists s b dl,
-        P9V.Codec.Spec9P.spec_find t P9V.Codec.Spec9P.spec = Some s /\
-        P9V.Codec.Spec9P.bind_find t P9V.Codec.Spec9P.binding = Some b /\
-        P9V.Codec.GenCheck.gm_go g = P9V.Codec.Spec9P.b_go b /\
-        CF.rename_ml (P9V.Codec.Spec9P.to_spec (P9V.Codec.Spec9P.b_map b)) (P9V.Codec.GenCheck.gm_enc g) = P9V.Codec.Spec9P.sm_layout s /\
-        P9V.Codec.GenCheck.layout_of (P9V.Codec.GenCheck.gm_dec g) = Some dl /\
-        CF.rename_ml (P9V.Codec.Spec9P.to_spec (P9V.Codec.Spec9P.b_map b)) dl = P9V.Codec.Spec9P.sm_layout s /\
-        CF.ml_ok (P9V.Codec.Spec9P.sm_layout s) = true /\
-        P9V.Codec.GenCheck.gm_fixed_size g = option_map N.of_nat (CF.fixed_size (P9V.Codec.GenCheck.gm_enc g))
-  end.
-Proof. exact P9V.Codec.GenCheck.layout_is_spec. Qed.
-Print Assumptions C02_spec_is_source.
+Module SpecIsSource.
+  Import P9V.Codec.Layout P9V.Codec.Frame P9V.Codec.Reuse P9V.Codec.Spec9P P9V.gen.CodecGen P9V.Codec.GenCheck.
+  Theorem C02_spec_is_source : forall t, t < 256 ->
+    match gen_find t gen_msgs with
+    | None => spec_find t spec = None
+    | Some g =>
+        exists s b dl,
+          spec_find t spec = Some s /\ bind_find t binding = Some b /\ gm_go g = b_go b /\
+          rename_ml (to_spec (b_map b)) (gm_enc g) = sm_layout s /\
+          layout_of (gm_dec g) = Some dl /\ rename_ml (to_spec (b_map b)) dl = sm_layout s /\
+          ml_ok (sm_layout s) = true /\
+          gm_fixed_size g = option_map N.of_nat (fixed_size (gm_enc g))
+    end.
+  Proof. exact layout_is_spec. Qed.
+End SpecIsSource.
+Print Assumptions SpecIsSource.C02_spec_is_source.
 
 (** "never panics": in these models the clause holds BY CONSTRUCTION -- [outcome] has no panic
     constructor, recv and the decoders are total Gallina functions -- so it is not a theorem about the
